@@ -36,10 +36,10 @@ Definition instant_eqb (a b : instant) : bool := Z.eqb (t_sec a) (t_sec b) && N.
 
 (** webdav.FileInfo *)
 Record info := {
-  i_path : string; i_size : N; i_mod : instant; i_dir : bool; i_mime : string; i_etag : string }.
+  i_path : string; i_size : Z; i_mod : instant; i_dir : bool; i_mime : string; i_etag : string }.
 
 Definition info_eqb (a b : info) : bool :=
-  String.eqb (i_path a) (i_path b) && N.eqb (i_size a) (i_size b) && instant_eqb (i_mod a) (i_mod b) &&
+  String.eqb (i_path a) (i_path b) && Z.eqb (i_size a) (i_size b) && instant_eqb (i_mod a) (i_mod b) &&
   Bool.eqb (i_dir a) (i_dir b) && String.eqb (i_mime a) (i_mime b) && String.eqb (i_etag a) (i_etag b).
 
 Fixpoint infos_eqb (a b : list info) : bool :=
@@ -48,6 +48,10 @@ Fixpoint infos_eqb (a b : list info) : bool :=
   | x :: a', y :: b' => info_eqb x y && infos_eqb a' b'
   | _, _ => false
   end.
+
+(** strconv.FormatInt(n, 10): what xml.Marshal writes for an int64 field *)
+Definition dec_z (z : Z) : string :=
+  if Z.ltb z 0 then String "-"%char (dec (Z.to_N (- z))) else dec (Z.to_N z).
 
 (** * Library functions that are inputs *)
 Record ext := {
@@ -147,7 +151,7 @@ Section Server.
     [(RT, PResType (i_dir fi))]
     ++ (if is_zero (i_mod fi) then [] else [(LMOD, PText (x_time_fmt X (i_mod fi)))])
     ++ (if i_dir fi then []
-        else [(CLEN, PText (dec (i_size fi)))]
+        else [(CLEN, PText (dec_z (i_size fi)))]
              ++ (if String.eqb (i_mime fi) "" then [] else [(CTYPE, PText (i_mime fi))])
              ++ (if String.eqb (i_etag fi) "" then [] else [(ETAG, PText (x_quote X (i_etag fi)))])).
 
@@ -361,7 +365,78 @@ Section Client.
     | _ => r
     end.
 
-  (** int64 character data: decimal digits (what xml.Marshal writes for a size) *)
+  (** int64 character data (GetContentLength.Length, `xml:",chardata"`), after
+      encoding/xml copyValue: empty data sets the field to 0; otherwise
+      strconv.ParseInt(strings.TrimSpace(data), 10, 64). *)
+
+  (** one white-space rune (unicode.IsSpace) at the head of the bytes: the ASCII
+      ones, U+0085, U+00A0, U+1680, U+2000..U+200A, U+2028, U+2029, U+202F, U+205F,
+      U+3000 in UTF-8 *)
+  Definition space_prefix (s : string) : option string :=
+    match s with
+    | EmptyString => None
+    | String a r =>
+      let k := N_of_ascii a in
+      if (N.leb 9 k && N.leb k 13) || N.eqb k 32 then Some r
+      else match r with
+           | EmptyString => None
+           | String b r1 =>
+             let k1 := N_of_ascii b in
+             if N.eqb k 194 then (if N.eqb k1 133 || N.eqb k1 160 then Some r1 else None)
+             else match r1 with
+                  | EmptyString => None
+                  | String c r2 =>
+                    let k2 := N_of_ascii c in
+                    if N.eqb k 225 then (if N.eqb k1 154 && N.eqb k2 128 then Some r2 else None)
+                    else if N.eqb k 226 then
+                      (if (N.eqb k1 128 && ((N.leb 128 k2 && N.leb k2 138) || N.eqb k2 168 || N.eqb k2 169 || N.eqb k2 175))
+                          || (N.eqb k1 129 && N.eqb k2 159) then Some r2 else None)
+                    else if N.eqb k 227 then (if N.eqb k1 128 && N.eqb k2 128 then Some r2 else None)
+                    else None
+                  end
+           end
+    end.
+
+  (** the same at the tail, on the reversed bytes *)
+  Definition space_suffix_rev (s : string) : option string :=
+    match s with
+    | EmptyString => None
+    | String a r =>
+      let k := N_of_ascii a in
+      if (N.leb 9 k && N.leb k 13) || N.eqb k 32 then Some r
+      else match r with
+           | EmptyString => None
+           | String b r1 =>
+             let k1 := N_of_ascii b in
+             if N.eqb k1 194 && (N.eqb k 133 || N.eqb k 160) then Some r1
+             else match r1 with
+                  | EmptyString => None
+                  | String c r2 =>
+                    let k2 := N_of_ascii c in
+                    if (N.eqb k2 225 && N.eqb k1 154 && N.eqb k 128)
+                       || (N.eqb k2 226 && ((N.eqb k1 128 && ((N.leb 128 k && N.leb k 138) || N.eqb k 168 || N.eqb k 169 || N.eqb k 175))
+                                            || (N.eqb k1 129 && N.eqb k 159)))
+                       || (N.eqb k2 227 && N.eqb k1 128 && N.eqb k 128)
+                    then Some r2 else None
+                  end
+           end
+    end.
+
+  Fixpoint srev_aux (s acc : string) : string :=
+    match s with EmptyString => acc | String a r => srev_aux r (String a acc) end.
+  Definition srev (s : string) : string := srev_aux s EmptyString.
+
+  Fixpoint trim_with (f : string -> option string) (fuel : nat) (s : string) : string :=
+    match fuel with
+    | O => s
+    | S n => match f s with Some r => trim_with f n r | None => s end
+    end.
+
+  (** strings.TrimSpace *)
+  Definition trim_space (s : string) : string :=
+    let l := trim_with space_prefix (String.length s) s in
+    srev (trim_with space_suffix_rev (String.length l) (srev l)).
+
   Fixpoint parse_digits (s : string) (acc : N) : option N :=
     match s with
     | EmptyString => Some acc
@@ -369,13 +444,30 @@ Section Client.
       let k := N_of_ascii c in
       if N.leb 48 k && N.leb k 57 then parse_digits r (acc * 10 + (k - 48)) else None
     end.
-  Definition parse_size (s : string) : option N :=
+
+  (** strconv.ParseInt(s, 10, 64): optional sign, at least one digit, digits only
+      (underscores only count in base 0), value within int64 *)
+  Definition parse_int64 (s : string) : option Z :=
     match s with
     | EmptyString => None
-    | _ => match parse_digits s 0 with
-           | Some n => if N.ltb n 9223372036854775808 then Some n else None
-           | None => None
-           end
+    | String c r =>
+      let '(neg, digits) :=
+        if Ascii.eqb c "+"%char then (false, r) else if Ascii.eqb c "-"%char then (true, r) else (false, s) in
+      match digits with
+      | EmptyString => None
+      | _ => match parse_digits digits 0 with
+             | None => None
+             | Some un =>
+               if neg then (if N.leb un 9223372036854775808 then Some (- Z.of_N un)%Z else None)
+               else (if N.ltb un 9223372036854775808 then Some (Z.of_N un) else None)
+             end
+      end
+    end.
+
+  Definition parse_size (s : string) : option Z :=
+    match s with
+    | EmptyString => Some 0%Z
+    | _ => parse_int64 (trim_space s)
     end.
 
   (** ETag.UnmarshalText: only double-quoted strings *)
@@ -396,7 +488,7 @@ Section Client.
     do rt <- decode_prop r RT;
     let is_coll := match rt with PResType b => b | _ => false end in
     do szte <-
-      (if is_coll then Ok (0%N, "", "")
+      (if is_coll then Ok (0%Z, "", "")
        else
          do lenv <- decode_prop r CLEN;
          do len <- opt_res (parse_size (text_of lenv));
@@ -483,6 +575,18 @@ Section Client.
     (calls, out_of (fun _ => ODone) (client_do resp)).
 End Client.
 
+(** * The client half alone: what Stat and ReadDir make of an HTTP answer (used to
+    exercise the client model on answers of servers other than this library's) *)
+Definition read_stat (X : ext) (resp : hresp) : outcome :=
+  out_of OInfo
+    (do ms <- do_multistatus X resp;
+     match ms with
+     | [r] => file_info_from_response X r
+     | _ => Err 0
+     end).
+Definition read_list (X : ext) (resp : hresp) : outcome :=
+  out_of OList (do ms <- do_multistatus X resp; infos_of X ms).
+
 (** * One client call *)
 Inductive op :=
 | OpStat (name : string)
@@ -521,7 +625,7 @@ Section Local.
   Definition fi_of_node (segs : list string) (n : node) : info :=
     let p := external_path segs in
     let '(size, mtime) := match n with File c m => (strlen c, m) | Dir _ => dmeta segs end in
-    {| i_path := p; i_size := size; i_mod := instant_of_ns mtime;
+    {| i_path := p; i_size := Z.of_N size; i_mod := instant_of_ns mtime;
        i_dir := match n with Dir _ => true | File _ _ => false end;
        i_mime := x_mime_ext X p; i_etag := etag_of mtime size |}.
 
@@ -582,7 +686,7 @@ Definition spec_target (ep name : string) : string :=
     collection has no entity: the protocol carries none of the three for it). *)
 Definition view (fi : info) : info :=
   if i_dir fi then
-    {| i_path := i_path fi; i_size := 0; i_mod := to_second (i_mod fi); i_dir := true; i_mime := ""; i_etag := "" |}
+    {| i_path := i_path fi; i_size := 0%Z; i_mod := to_second (i_mod fi); i_dir := true; i_mime := ""; i_etag := "" |}
   else
     {| i_path := i_path fi; i_size := i_size fi; i_mod := to_second (i_mod fi); i_dir := false;
        i_mime := i_mime fi; i_etag := i_etag fi |}.
@@ -595,7 +699,7 @@ Definition wf_path (p : string) : bool := is_abs p && negb (starts_with_2slash p
 Definition wf_time (t : instant) : bool :=
   is_zero t || (Z.leb (-62167219200) (t_sec t) && Z.ltb (t_sec t) 253402300800 && N.ltb (t_ns t) 1000000000).
 Definition wf_info (X : ext) (fi : info) : bool :=
-  wf_path (i_path fi) && wf_time (i_mod fi) && N.ltb (i_size fi) 9223372036854775808 &&
+  wf_path (i_path fi) && wf_time (i_mod fi) && Z.leb (-9223372036854775808) (i_size fi) && Z.ltb (i_size fi) 9223372036854775808 &&
   (i_dir fi || String.eqb (x_text X (i_mime fi)) (i_mime fi)).   (* text XML can carry *)
 
 Definition wf_code (e : fserr) : bool :=
@@ -670,7 +774,7 @@ Definition spec_ok (X : ext) (fs : filesystem) (ep : string) (o : op) (calls : l
     | FOk fi =>
       if i_dir fi then out_is_err out
       else match fs_open fs p with
-           | FOk b => if N.eqb (i_size fi) (strlen b) then outcome_eqb out (OBytes b) else true
+           | FOk b => if Z.eqb (i_size fi) (Z.of_N (strlen b)) then outcome_eqb out (OBytes b) else true
            | FErr e => if wf_code e then out_is_err out else true
            end
     | FErr e => if wf_code e then out_is_err out else true
@@ -731,7 +835,7 @@ Definition entry_ok (t : option node) (e : info) : bool :=
     String.eqb (i_path e) (external_path q) &&
     match geto t q with
     | Some (Dir _) => i_dir e
-    | Some (File c _) => negb (i_dir e) && N.eqb (i_size e) (strlen c)
+    | Some (File c _) => negb (i_dir e) && Z.eqb (i_size e) (Z.of_N (strlen c))
     | None => false
     end
   | _ => false
@@ -905,3 +1009,7 @@ Definition stored_ok (o : op) (stored : option string) : bool :=
   | OpCreate _ chunks, Some b => String.eqb b (String.concat "" chunks)
   | _, _ => true
   end.
+
+(** the reading of a scripted ("foreign") answer agrees with what the client returned *)
+Definition foreign_agrees (X : ext) (list_op : bool) (resp : hresp) (out : outcome) : bool :=
+  outcome_eqb (if list_op then read_list X resp else read_stat X resp) out.
